@@ -95,6 +95,11 @@ var variants = map[string][]variant{
 		// 8, 9: the body rewrites front-matter keys in its root scope. Every render must start from
 		// the file's front-matter again ("visit 2", "hello!"), whatever earlier renders did.
 		8: {Content: "---\nn: 1\ngreeting: hello\n---\n" + `<template :n="n + 1" :greeting="greeting + '!'"></template><div data-m="page">P8 {{ greeting }} visit {{ n }} {{ x }}` + inc + `</div>`, LoadOK: true, RenderOK: true, Include: true},
+		// 11, 12: the page hands a named slot template to its layout, so every version of the page
+		// is visible in the body AND in the layout's <slot name="sidebar"> (main variant 4,
+		// base variant 3); they also rewrite front-matter keys in their scope like 8 and 9
+		11: {Content: "---\ntitle: T11\nlayout: main\nn: 5\n---\n" + `<template #sidebar><p data-m="side">S11 {{ title }}</p></template>` + "\n" + `<div data-m="page">P11 <template :n="n * 2" :title="title + '+'"></template>{{ n }} {{ title }} {{ x }}` + inc + `</div>`, LoadOK: true, RenderOK: true, Layout: "main", Include: true},
+		12: {Content: "---\nn: 1\ngreeting: hello\ntitle: T12\n---\n" + `<template #sidebar><p data-m="side">S12 {{ greeting }}</p></template>` + "\n" + `<div data-m="page">P12 <template :n="n + 1" :greeting="greeting + '!'"></template>{{ greeting }} visit {{ n }} {{ x }}` + inc + `</div>`, LoadOK: true, RenderOK: true, Include: true},
 		// 10: a LESS style block whose CSS depends on the imported vars.less (compiled on every
 		// render when the LESS processor is registered; left alone otherwise)
 		10: {Content: "<style type=\"text/css+less\">\n@import \"vars.less\";\n.box {\n  color: @brand;\n}\n</style>\n" + `<div data-m="page" class="box">P10 {{ title }} {{ x }}` + inc + `</div>`, LoadOK: true, RenderOK: true, Include: true, Less: true},
@@ -112,6 +117,7 @@ var variants = map[string][]variant{
 		1: {Content: "---\nlayout: base\n---\n" + `<section data-m="main">M1 {{ title }}<div v-html="content"></div></section>`, LoadOK: true, RenderOK: true, Layout: "base"},
 		2: {Content: "---\nmainvar: MV2\n---\n" + `<article data-m="main">M2 {{ mainvar }}` + inc + `<div v-html="content"></div></article>`, LoadOK: true, RenderOK: true, Include: true},
 		3: {Content: "---\nlayout: {base\n---\n<b>bad3</b>"},
+		4: {Content: `<main data-m="main"><aside data-m="slot">M4 <slot name="sidebar"><p>no sidebar</p></slot></aside><div v-html="content"></div></main>`, LoadOK: true, RenderOK: true},
 	},
 	fRel: {
 		0: {Content: `<main data-m="rel"><h2>R0 {{ title }}</h2><div v-html="content"></div></main>`, LoadOK: true, RenderOK: true},
@@ -128,6 +134,7 @@ var variants = map[string][]variant{
 		0: {Content: `<html><head><title>{{ title }}</title></head><body data-m="base">B0 <div v-html="content"></div></body></html>`, LoadOK: true, RenderOK: true},
 		1: {Content: `<html><body data-m="base"><header>B1 {{ title }}</header><div v-html="content"></div></body></html>`, LoadOK: true, RenderOK: true},
 		2: {Content: "---\n\ttab: x\n---\n<u>bad2</u>"},
+		3: {Content: `<html><body data-m="base">B3 {{ title }}<nav data-m="slot"><slot name="sidebar">no sidebar</slot></nav><div v-html="content"></div></body></html>`, LoadOK: true, RenderOK: true},
 	},
 }
 
@@ -621,7 +628,7 @@ var alphabetLess = []letter{
 }
 
 // the two alternating valid contents per file used by the enumeration
-var enumPair = map[string][2]int{fPage: {8, 9}, fComp: {1, 0}, fMain: {1, 0}, fBase: {0, 1}, fRel: {0, 1}, fLess: {1, 0}}
+var enumPair = map[string][2]int{fPage: {12, 11}, fComp: {1, 0}, fMain: {1, 4}, fBase: {0, 3}, fRel: {0, 1}, fLess: {1, 0}}
 var enumBad = map[string]int{fPage: 5, fComp: 3, fMain: 3, fBase: 2}
 
 // engineOpt is one combination of the case-wide options.
@@ -630,12 +637,22 @@ type engineOpt struct {
 	zeroInit    bool
 }
 
+// nextOf picks the member of the file's alternating pair that differs from what it holds now.
+func nextOf(file string, curV map[string]int) int {
+	p := enumPair[file]
+	if v, ok := curV[file]; ok && v == p[0] {
+		return p[1]
+	}
+	return p[0]
+}
+
 func buildHistory(alpha []letter, init map[string]int, word []int, o engineOpt) Case {
 	c := Case{Init: init, Proc: o.proc, Store: o.store, ZeroInit: o.zeroInit}
-	writes := map[string]int{}
+	curV := map[string]int{} // the content variant each file got last (so that every write changes it)
 	exists := map[string]bool{}
-	for f := range init {
+	for f, v := range init {
 		exists[f] = true
+		curV[f] = v
 	}
 	for _, li := range word {
 		l := alpha[li]
@@ -643,8 +660,9 @@ func buildHistory(alpha []letter, init map[string]int, word []int, o engineOpt) 
 		case "block", "unblock":
 			c.Ops = append(c.Ops, Op{Op: l.op, File: l.file})
 		case "arm":
-			c.Ops = append(c.Ops, Op{Op: "arm", File: l.file, V: enumPair[l.file][writes[l.file]%2], Dt: l.dt})
-			writes[l.file]++
+			v := nextOf(l.file, curV)
+			curV[l.file] = v
+			c.Ops = append(c.Ops, Op{Op: "arm", File: l.file, V: v, Dt: l.dt})
 		case "render":
 			c.Ops = append(c.Ops, Op{Op: "render", Entry: l.entry, D: enumData[len(c.Ops)%len(enumData)]})
 		case "delete":
@@ -654,8 +672,8 @@ func buildHistory(alpha []letter, init map[string]int, word []int, o engineOpt) 
 			v := enumBad[l.file]
 			name := l.op
 			if !l.bad {
-				v = enumPair[l.file][writes[l.file]%2]
-				writes[l.file]++
+				v = nextOf(l.file, curV)
+				curV[l.file] = v
 				if !exists[l.file] {
 					name = "recreate"
 				}
@@ -669,8 +687,8 @@ func buildHistory(alpha []letter, init map[string]int, word []int, o engineOpt) 
 
 // the two standard initial configurations
 var stdInits = []map[string]int{
-	{fPage: 9, fComp: 0, fMain: 0},           // A: page names layout main, no default layout
-	{fPage: 0, fComp: 0, fMain: 1, fBase: 0}, // B: page without layout, default layout present, main chains to base
+	{fPage: 11, fComp: 0, fMain: 4},           // A: page names layout main (which fills the page's named slot), no default layout
+	{fPage: 12, fComp: 0, fMain: 1, fBase: 3}, // B: page without layout, default layout present (fills the slot), main chains to base
 }
 
 // enumerate runs every history over alpha of length <= maxLen[i] from initial configuration
@@ -746,11 +764,11 @@ func genCase(t *rapid.T) Case {
 	blocked := map[string]bool{}
 	cur := map[string]int{fPage: -1, fComp: -1, fMain: -1, fBase: -1, fRel: -1, fLess: -1} // -1 = absent
 	pick := func(label string, xs []int) int { return rapid.SampledFrom(xs).Draw(t, label) }
-	c.Init[fPage] = pick("init-page", []int{1, 8, 0, 9, 2, 3, 4, 7})
+	c.Init[fPage] = pick("init-page", []int{11, 1, 12, 8, 0, 9, 2, 3, 4, 7})
 	c.Init[fComp] = pick("init-comp", []int{0, 1, 2})
-	c.Init[fMain] = pick("init-main", []int{0, 1, 2})
+	c.Init[fMain] = pick("init-main", []int{4, 0, 1, 2})
 	if rapid.Bool().Draw(t, "init-base") {
-		c.Init[fBase] = pick("init-base-v", []int{0, 1})
+		c.Init[fBase] = pick("init-base-v", []int{3, 0, 1})
 	}
 	if rapid.IntRange(0, 5).Draw(t, "init-rel") == 0 {
 		c.Init[fRel] = pick("init-rel-v", []int{0, 1})
